@@ -85,4 +85,7 @@ def make_comm_tag(spec):
 
 def draw_comm_tag(rng):
     from .mrecipe import TAG_KINDS
-    return [rng.choice(TAG_KINDS), rng.randint(1, 6)]
+    # (not "obj": an arbitrary object is a legal communication tag, but the
+    # persistent key builder rightly refuses to key types it does not know)
+    kinds = [k for k in TAG_KINDS if k != "obj"]
+    return [rng.choice(kinds), rng.randint(1, 6)]
